@@ -141,6 +141,8 @@ fn join(parts: &[&[u8]]) -> Vec<u8> {
 
 const CFI_TOKENS: &[&str] = &[
     ".cfa", ".ra", "$esp", "$ebp", "$eip", "$ebx", "$rsp", "$rbp", "$rip", "sp", "fp", "lr", "pc", "x29", "x30", "r7", "r11", "+", "-", "*", "/", "%", "@", "^", "4", "8", "16", "0", "-8", "ffff", ".undef",
+    // numeric boundary values
+    "-1", "1", "18446744073709551615", "-9223372036854775808", "9223372036854775807", "/", "%", "*",
 ];
 
 pub fn cfi_rules(extremes: bool) -> Vec<u8> {
@@ -171,16 +173,36 @@ pub fn cfi_rules(extremes: bool) -> Vec<u8> {
 
 const WIN_TOKENS: &[&str] = &[
     "$T0", "$T1", "$T2", "$eip", "$esp", "$ebp", "$ebx", "$L", "$P", ".cbSavedRegs", ".cbParams", ".cbLocals", ".raSearchStart", ".raSearch", "=", "+", "-", "*", "/", "%", "@", "^", "4", "8", "12", "0",
+    // numeric boundary values (the evaluator works on 32-bit values parsed as i32)
+    "-1", "-2147483648", "2147483647", "1", "-4", "/", "%", "*",
 ];
 
+thread_local! {
+    /// Focus knob: every generated unwind program is an unusual one (expression-evaluator stress).
+    pub static FORCE_WEIRD: std::cell::Cell<bool> = const { std::cell::Cell::new(false) };
+}
+
 pub fn win_program(extremes: bool) -> Vec<u8> {
-    if !extremes || !chance("sym.win.weird", 1, 5) {
+    let force = FORCE_WEIRD.with(|f| f.get());
+    if !force && (!extremes || !chance("sym.win.weird", 1, 3)) {
         match ch("sym.win.shape", 3) {
             0 => b"$T0 .raSearch = $eip $T0 ^ = $esp $T0 4 + =".to_vec(),
             1 => b"$T0 $ebp = $eip $T0 4 + ^ = $ebp $T0 ^ = $esp $T0 8 + =".to_vec(),
             _ => b"$T2 $esp .cbLocals + .cbSavedRegs + = $T0 .raSearchStart = $eip $T0 ^ = $esp $T0 4 + = $ebx $T2 4 - ^ =".to_vec(),
         }
     } else {
+        if chance("sym.win.boundary_template", 1, 2) {
+            // $T0 <a> <b> <op> = ... : arithmetic on boundary operands, then a normal tail
+            let op = ["/", "%", "*", "+", "-"][ch("sym.win.bt.op", 5) as usize];
+            let (an, bn): (&[&str], &[&str]) = if op == "/" || op == "%" {
+                (&["-2147483648", "-1", "2147483647", "1"], &["-1", "0", "1", "-2147483648"])
+            } else {
+                (&["-2147483648", "-1", "0", "1", "2147483647"], &["-2147483648", "-1", "0", "1", "2147483647"])
+            };
+            let a = an[ch("sym.win.bt.a", an.len() as u32) as usize];
+            let b = bn[ch("sym.win.bt.b", bn.len() as u32) as usize];
+            return format!("$T0 {a} {b} {op} = $eip $esp ^ = $esp $esp 4 + =").into_bytes();
+        }
         let n = 1 + ch("sym.win.n", 14);
         let mut s = String::new();
         for i in 0..n {
